@@ -102,10 +102,10 @@ def check_events(ck, sc, res):
 def run(tier, lab):
     ck = lib.Check(PROP, tier, "model_checking")
     rng = random.Random(lib.seed())
-    r1 = lib.tlc("MC_CanaryTCP", timeout=300, constants={"NConns": "1", "MaxFrames": "5"})
+    r1 = lib.tlc("MC_CanaryTCP", timeout=300, constants={"NConns": "1", "MaxFrames": "5" if tier == "quick" else "6"})
     lib.tlc_must_pass(r1, "CanaryTCP generation, 1 connection")
     ck.add_tlc(r1, "CanaryTCP: all client behaviours of one connection up to 5 frames (4 segment lengths, PSH, FIN with/without data)")
-    r2 = lib.tlc("MC_CanaryTCP", timeout=300, constants={"NConns": "2", "MaxFrames": "6"}, simulate=40 if tier == "quick" else 400,
+    r2 = lib.tlc("MC_CanaryTCP", timeout=300, constants={"NConns": "2", "MaxFrames": "6"}, simulate=40 if tier == "quick" else 3000,
                  depth=8, tlc_seed=lib.seed(), workers=8)
     lib.tlc_must_pass(r2, "CanaryTCP generation, 2 connections")
     ck.add_tlc(r2, "CanaryTCP: interleaved frames of two connections (-simulate)")
